@@ -44,13 +44,16 @@ def replay(entry, repo_root):
     if r.get('kind') == 'case':
         res = _run_case(r['case'])
         return res['what'] if res else None
+    if r.get('kind') == 'errorcase':
+        res = _run_error_case(r['case'])
+        return res['what'] if res else None
     if r.get('kind') == 'modecase':
         res = _run_mode_case(r['case'])
         return res['what'] if res else None
     return None
 
 
-def _lib_render(pa, pb, opt, from_mime=None, to_mime=None, join=False, mode='full', fmt=None):
+def _lib_render(pa, pb, opt, from_mime=None, to_mime=None, join=False, mode='full', fmt=None, match_if=None, match_unless=None):
     """The library route for what the command documents: trees built with the file types of the two positions, rendered
     with the default formatter of --format if given, otherwise of the FIRST file's type; `mode` is 'full' (diff),
     '-e' (one line per edit of get_all_edits) or '-d' (edit digest: ancestors' context, ' -> ', the edit)."""
@@ -66,6 +69,14 @@ def _lib_render(pa, pb, opt, from_mime=None, to_mime=None, join=False, mode='ful
         a = ff.build_tree(pa, options)
         b = tf.build_tree(pb, options)
         formatter = (graphtage.FILETYPES_BY_TYPENAME[fmt] if fmt is not None else ff).get_default_formatter()
+        if match_if is not None or match_unless is not None:
+            from graphtage import expressions
+            from graphtage.constraints import MatchIf, MatchUnless
+            for node in a.dfs():
+                if match_if is not None:
+                    MatchIf.apply(node, expressions.parse(match_if))
+                if match_unless is not None:
+                    MatchUnless.apply(node, expressions.parse(match_unless))
         had = False
         if mode == '-e':
             for edit in a.get_all_edits(b):
@@ -103,13 +114,38 @@ def _mode_cases():
             for mode in ('full', '-e', '-d'):
                 for fmt in (None, 'json', 'yaml'):
                     for how in ('suffix', 'flags'):
-                        cases.append({'kind': 'mode', 'ft': ft, 'tt': tt, 'mode': mode, 'fmt': fmt, 'how': how,
-                                      'a': texts[ft][0], 'b': texts[tt][1],
-                                      'sa': texts[ft][2] if how == 'suffix' else '.dat', 'sb': texts[tt][2] if how == 'suffix' else '.dat'})
+                        for same in (False, True):      # documents with and without differences (exit status 1 / 0)
+                            cases.append({'kind': 'mode', 'ft': ft, 'tt': tt, 'mode': mode, 'fmt': fmt, 'how': how, 'same': same,
+                                          'a': texts[ft][0], 'b': texts[tt][0 if same else 1],
+                                          'sa': texts[ft][2] if how == 'suffix' else '.dat', 'sb': texts[tt][2] if how == 'suffix' else '.dat'})
+    # --match-if / --match-unless: the expression is applied to every node of the first tree
+    doc_c, doc_d = {"k": {"id": 1, "v": "x"}, "l": [{"id": 1}, {"id": 2}]}, {"k": {"id": 2, "v": "x"}, "l": [{"id": 2}, {"id": 3}]}
+    for mode in ('full', '-e', '-d'):
+        for mi, mu in (("from['id'] == to['id']", None), (None, "from['id'] == to['id']"), ("1 == 1", None), ("1 == 2", None),
+                       (None, "1 == 1"), (None, "1 == 2"), (None, "from['k']['id'] != to['k']['id']"),
+                       ("from['id'] == to['id']", "1 == 2"), ("1 == 1", "1 == 1")):
+            cases.append({'kind': 'mode', 'ft': 'json', 'tt': 'json', 'mode': mode, 'fmt': None, 'how': 'suffix', 'same': False,
+                          'a': json.dumps(doc_c), 'b': json.dumps(doc_d), 'sa': '.json', 'sb': '.json', 'mi': mi, 'mu': mu})
     return cases
 
 
 MIMES = {'json': 'application/json', 'yaml': 'application/x-yaml'}
+
+
+def _run_error_case(case):
+    """Unknown explicit MIME type: 'Error: ...' on stderr, nothing on stdout, non-zero status, no exception."""
+    _ensure_mimetypes()
+    tf = gt.TempFiles()
+    try:
+        pa, pb = tf.write('[1]', case.get('sa', '.json')), tf.write('[2]', case.get('sb', '.json'))
+        rc, out, err, exc = gt.run_cli([pa, pb, '--no-status', '--no-color'] + case['flags'])
+        if exc is not None or rc in (0, None) or 'Error' not in err or out.strip():
+            return {'input': case, 'what': f"unknown file type {case['flags']}: rc={rc}, exc={exc!r}, stdout={out[:60]!r}, stderr={err[-100:]!r} "
+                                           f"(expected an error message, empty stdout and a non-zero status)",
+                    'class': 'c14-unknown-type', 'replay': {'kind': 'errorcase', 'case': case}}
+        return None
+    finally:
+        tf.cleanup()
 
 
 def _run_mode_case(case):
@@ -126,15 +162,20 @@ def _run_mode_case(case):
             argv.append(case['mode'])
         if case['fmt']:
             argv += ['--format', case['fmt']]
+        if case.get('mi'):
+            argv += ['--match-if', case['mi']]
+        if case.get('mu'):
+            argv += ['--match-unless', case['mu']]
         rc, out, err, exc = gt.run_cli(argv)
         try:
-            lib_out, lib_rc = _lib_render(pa, pb, {}, fm, tm, mode=case['mode'], fmt=case['fmt'])
+            lib_out, lib_rc = _lib_render(pa, pb, {}, fm, tm, mode=case['mode'], fmt=case['fmt'], match_if=case.get('mi'),
+                                          match_unless=case.get('mu'))
         except Exception as e:
             lib_out, lib_rc = f"<library raised {type(e).__name__}: {e}>", None
             if exc is not None and type(exc) is type(e):
                 return None     # both routes fail alike (rendering defects are C13's business)
         if exc is not None or rc != lib_rc or out != lib_out:
-            desc = {k: case[k] for k in ('ft', 'tt', 'mode', 'fmt', 'how')}
+            desc = {k: case.get(k) for k in ('ft', 'tt', 'mode', 'fmt', 'how', 'same', 'mi', 'mu')}
             return {'input': desc, 'what': f"mode case {desc}: CLI (rc={rc}, exc={exc!r}) disagrees with the library route "
                                            f"(rc={lib_rc}); CLI out={out[:90]!r} library out={lib_out[:90]!r}",
                     'class': f"c14-mode:{case['mode']}", 'replay': {'kind': 'modecase', 'case': case}}
@@ -256,11 +297,18 @@ def bounded(tier, seed, repo_root):
     for r in pmap(_run_mode_case, mcases, repo_root, job_timeout=120, on_timeout=_case_timeout):
         if r:
             fails.append(r)
+    # a file whose type cannot be determined (unknown suffix, no explicit type) in either position
+    ecases = [{'flags': [], 'sa': '.gtunknownext', 'sb': '.json'}, {'flags': [], 'sa': '.json', 'sb': '.gtunknownext'},
+              {'flags': ['--from-json'], 'sa': '.gtunknownext', 'sb': '.gtunknownext'}]
+    for r in pmap(_run_error_case, ecases, repo_root, job_timeout=120, on_timeout=_case_timeout):
+        if r:
+            fails.append(r)
     return [{
         'name': 'C14.cli-vs-library', 'bound': f"{n} seeded document pairs (<=3 nodes) x 9 option combinations; alias pairs "
         f"-k/--dict-strategy none, -j/-jl -jd, --from-json/--from-mime, --to-json/--to-mime; {len(cases)} explicit-type cases "
         f"with misleading file names for both positions; {len(mcases)} mode cases: {{full, -e, -d}} x --format {{none, json, yaml}} x "
-        f"file types of the two positions {{json, yaml}}^2 x {{by suffix, by --from-/--to- flags}}",
+        f"file types of the two positions {{json, yaml}}^2 x {{by suffix, by --from-/--to- flags}} x {{equal, different}} documents, --match-if / --match-unless "
+        f"expressions, files of undeterminable type",
         'evaluations': n * 9 + len(cases) + len(mcases), 'distinct_nontrivial': len({D.key(j[0]) + D.key(j[1]) for j in jobs}) + len(cases),
         'exhaustive': False,
         'rule': 'document pair x options -> CLI stdout/exit status equals library rendering; equivalent spellings give '
